@@ -139,15 +139,67 @@ func (e *composerEnv) svcJSON(s CEnt) map[string]interface{} {
 	return m
 }
 
+// Concrete URIs are valid but not all "plain": an upper-case scheme and host, a non-ASCII path
+// character, a fragment, a percent escape - whatever the library does with them, it must hand
+// them back as given.
+var uriTable = []string{
+	"https://unknown.example/",
+	"https://aka1.example/",
+	"HTTPS://Aka2.Example/zoë?q=1",
+	"did:example:123456789abcdefghi#frag",
+	"https://aka4.example/a%20b/../c",
+}
+
 func uriOf(i int) string {
-	if i == 0 {
-		return "https://unknown.example/"
+	if i < len(uriTable) {
+		return uriTable[i]
 	}
 
 	return fmt.Sprintf("https://aka%d.example/", i)
 }
 
+// uriID maps a concrete URI back (-1: not a URI the harness handed out).
+func uriID(s string) int {
+	for i := 1; i < len(uriTable); i++ {
+		if uriTable[i] == s {
+			return i
+		}
+	}
+
+	if m := reURI.FindStringSubmatch(s); m != nil && atoi(m[1]) >= len(uriTable) {
+		return atoi(m[1])
+	}
+
+	return -1
+}
+
 var reURI = regexp.MustCompile(`^https://aka([0-9]+)\.example/$`)
+
+// Names of further document members: ordinary names, but the second extends the first (sibling
+// names sharing a prefix) and carries a space, a non-ASCII letter and a percent sign.
+var otherNames = []string{"", "o1", "o1 é%", "o3"}
+
+func otherName(i int) string {
+	if i < len(otherNames) {
+		return otherNames[i]
+	}
+
+	return fmt.Sprintf("o%d", i)
+}
+
+func otherID(name string) int {
+	for i := 1; i < len(otherNames); i++ {
+		if otherNames[i] == name {
+			return i
+		}
+	}
+
+	if m := reOther.FindStringSubmatch(name); m != nil && atoi(m[1]) >= len(otherNames) {
+		return atoi(m[1])
+	}
+
+	return -1
+}
 
 func valJSON(v CVal) interface{} {
 	switch v.T {
@@ -165,7 +217,7 @@ func valJSON(v CVal) interface{} {
 }
 
 func pathJSON(p CPath) string {
-	s := fmt.Sprintf("/o%d", p.Name)
+	s := "/" + otherName(p.Name)
 	if p.Sub {
 		s += "/n"
 	}
@@ -311,11 +363,7 @@ func (e *composerEnv) project(doc document.Document, nOther int) (CDoc, []string
 
 	for _, u := range list(doc["alsoKnownAs"], "alsoKnownAs") {
 		s, _ := u.(string)
-		if m := reURI.FindStringSubmatch(s); m != nil {
-			d.Aka = append(d.Aka, atoi(m[1]))
-		} else {
-			d.Aka = append(d.Aka, -1)
-		}
+		d.Aka = append(d.Aka, uriID(s))
 	}
 
 	d.norm(nOther)
@@ -326,8 +374,8 @@ func (e *composerEnv) project(doc document.Document, nOther int) (CDoc, []string
 			continue
 		}
 
-		m := reOther.FindStringSubmatch(name)
-		if m == nil || atoi(m[1]) < 1 || atoi(m[1]) > nOther {
+		oid := otherID(name)
+		if oid < 1 || oid > nOther {
 			extras = append(extras, name)
 			continue
 		}
@@ -345,7 +393,7 @@ func (e *composerEnv) project(doc document.Document, nOther int) (CDoc, []string
 			}
 		}
 
-		d.Other[atoi(m[1])-1] = cv
+		d.Other[oid-1] = cv
 	}
 
 	sort.Strings(extras)
@@ -755,7 +803,7 @@ func composerTrace(args []string) {
 // exhaustively - and reported as KNOWN-FINDING - by the replay of the TLC-generated edges.
 func avoidKnownDeviations(ps []CPatch, doc document.Document) {
 	exists := func(p CPath) bool {
-		v, ok := doc[fmt.Sprintf("o%d", p.Name)]
+		v, ok := doc[otherName(p.Name)]
 		if !ok {
 			return false
 		}
